@@ -68,6 +68,12 @@ static KVs table_for(int blocks, int salt) {
     v.glen = 300;
     v.gseed = (uint32_t)(i + salt);
     v.gkind = (uint8_t)(i % 3 ? 2 : 0);
+    if (i % 7 == 3) {
+      // a few blocks that compress 10:1 to 100:1, with growing ratios along the table: decompression has to enlarge its
+      // output buffer, and whatever it learns from that must not be shared between threads without synchronisation
+      v.glen = 1500 + 500 * (uint32_t)(i % 5) + (uint32_t)i * 20;
+      v.gkind = 1;
+    }
     kv.emplace_back(bytes(k), v.expand());
   }
   return kv;
